@@ -18,11 +18,11 @@ run() { # label
   echo "=== $1 ($(git -C $wt rev-parse --short HEAD)) crates:$crates" >> "$log"
   cargo nextest run --offline $pk -j 10 --no-fail-fast > /tmp/wt-verify-run.log 2>&1
   rc=$?
-  grep -E "^\s+(FAIL|SIGABRT|TIMEOUT)|Summary|error(\[|:)" /tmp/wt-verify-run.log | sort -u >> "$log"
+  grep -E "(FAIL|SIGABRT|SIGSEGV|TIMEOUT) \[|Summary|error(\[|:)" /tmp/wt-verify-run.log | sort -u >> "$log"
   echo "rc=$rc" >> "$log"
   return $rc
 }
-failed_tests() { grep -E "^\s+FAIL" /tmp/wt-verify-run.log | sed 's/.*\] *//' | sort -u; }
+failed_tests() { sed "s,\x1b\[[0-9;]*m,,g" /tmp/wt-verify-run.log | grep -aE "(FAIL|SIGABRT|SIGSEGV|TIMEOUT) \[" | sed "s/.*\] *//" | sort -u; }
 git apply "$seed/patch.diff" || { echo "$name: PATCH DOES NOT APPLY"; exit 1; }
 run "a: change only"; a_rc=$?; a_fail=$(failed_tests | tr '\n' ' ')
 git apply "$seed/demo.diff" || { echo "$name: DEMO DOES NOT APPLY on patch"; exit 1; }
@@ -31,5 +31,6 @@ git reset -q --hard; git clean -fdq crates; git apply "$seed/demo.diff"
 run "c: demo only"; c_rc=$?; c_fail=$(failed_tests | tr '\n' ' ')
 git reset -q --hard; git clean -fdq crates
 verdict=REJECT
-if [ $a_rc -eq 0 ] && [ $c_rc -eq 0 ] && [ $b_rc -ne 0 ] && [ -n "$b_fail" ]; then verdict=CONFIRMED; fi
-echo "$name: $verdict  a_rc=$a_rc [$a_fail] b_rc=$b_rc [$b_fail] c_rc=$c_rc [$c_fail]" | tee -a "$log"
+b_nfail=$(awk '/^=== b:/{f=1} /^=== c:/{f=0} f && /Summary/' "$log" | grep -o '[0-9]* failed' | head -1)
+if [ $a_rc -eq 0 ] && [ $c_rc -eq 0 ] && [ $b_rc -ne 0 ] && { [ -n "$b_fail" ] || [ -n "$b_nfail" ]; }; then verdict=CONFIRMED; fi
+echo "$name: $verdict  a_rc=$a_rc [$a_fail] b_rc=$b_rc [$b_fail$b_nfail] c_rc=$c_rc [$c_fail]" | tee -a "$log"
